@@ -112,8 +112,69 @@ class Gen:
         r = self.r
         x = r.below(100)
         if x < self.p.get("stale_gen", 12):
-            return r.choice(["@-1", "@+1", "0", "1", "2", "7"])
+            return r.choice(["@-1", "@+1", "0", "1", "2", "7", "-1", "-1", "1000000"])
         return "@"
+
+    def fence_probe(self, g):
+        """a commit / heartbeat / sync from somebody who is (most likely) not in the current generation: empty
+        member id, never-issued ids, ids of earlier (possibly removed) members, other groups' clients, with
+        generations -1 ("no generation"), 0, gen-1, gen, gen+1, huge — issued in whatever phase the group is in"""
+        r = self.r
+        everybody = [c for l in self.clients.values() for c in l]
+        mem = r.choice(["-", "-", "-", "x7", "x9", "m1", "m2", "m3", "m4", "m5"] + ["c%d" % c for c in everybody])
+        gen = r.choice(["-1", "-1", "0", "@-1", "@", "@+1", "1000000"])
+        kind = r.choice(["commit", "commit", "hb", "sync"])
+        if kind == "commit":
+            parts = self.commit_parts(False)
+            self.emit("commit %d %s %s %s" % (g, mem, gen, ",".join("%d:%d:%d:%d" % x for x in parts)))
+        else:
+            self.emit("%s %d %s %s" % (kind, g, mem, gen))
+
+    def small_tick(self):
+        """2-4 s: a heartbeat cadence well below every session timeout (and below any write-coalescing interval)"""
+        r = self.r
+        if self.nticks >= 9:
+            return 0
+        for d in sorted([2, 3, 4], key=lambda _: r.below(100)):
+            if ((self.clock // 1000) + d) % 10 not in self.residues:
+                self.clock += d * 1000
+                self.nticks += 1
+                self.emit("tick %d" % (d * 1000))
+                return d
+        return 0
+
+    def cadence(self, g):
+        """members with a 10 s session heartbeat every 2-4 s for longer than the session, then the coordinator
+        fails over, the group is loaded (explicitly or by the first member's heartbeat), cleanup runs, and the
+        others heartbeat again: nobody may be expired"""
+        r = self.r
+        cs = list(self.clients[g])
+        for _ in range(2):
+            for c in cs:
+                ts = self.subs.get(c) or self.topics()
+                self.subs[c] = ts
+                self.emit("join %d c%d 10000 30000 1 1 %s" % (g, c, ",".join(map(str, ts)) if ts else "-"))
+        for _ in range(2):
+            for c in cs:
+                self.emit("sync %d c%d @" % (g, c))
+        total = 0
+        while total < 11:
+            d = self.small_tick()
+            if d == 0:
+                break
+            total += d
+            for c in cs:
+                self.emit("hb %d c%d @" % (g, c))
+        if r.chance(1, 6):
+            return            # sometimes no failover: plain long-lived stable group
+        self.emit("failover")
+        if r.chance(1, 2):
+            self.emit("load %d" % g)
+        else:
+            self.emit("hb %d c%d @" % (g, cs[0]))
+        self.emit("cleanup")
+        for c in cs:
+            self.emit("hb %d c%d @" % (g, c))
 
     def join(self, g, c=None, change=False):
         r = self.r
@@ -232,7 +293,9 @@ class Gen:
         self.set_meta()
         w = p["weights"]
         kinds = [k for k, n in w.items() for _ in range(n)]
-        if r.chance(p.get("start_converged", 70), 100):
+        if r.chance(p.get("cadence", 6), 100):
+            self.cadence(r.choice(self.gids))
+        elif r.chance(p.get("start_converged", 70), 100):
             for g in self.gids:
                 self.converge(g)
         guard = 0
@@ -246,6 +309,8 @@ class Gen:
                 self.join(g, r.choice(self.clients[g]), change=True)
             elif k == "converge":
                 self.converge(g)
+            elif k == "fence":
+                self.fence_probe(g)
             elif k == "sync":
                 self.emit("sync %d %s %s" % (g, self.member_tok(g), self.gen_tok()))
             elif k == "hb":
@@ -288,7 +353,7 @@ class Gen:
         return self.ops
 
 
-BASE_WEIGHTS = {"join": 8, "resub": 2, "converge": 3, "sync": 8, "hb": 8, "hball": 2, "leave": 3, "commit": 5, "fetch": 3,
+BASE_WEIGHTS = {"fence": 3, "join": 8, "resub": 2, "converge": 3, "sync": 8, "hb": 8, "hball": 2, "leave": 3, "commit": 5, "fetch": 3,
                 "tick": 6, "tickonly": 1, "cleanup": 2, "failover": 2, "failover_lazy": 1, "fail": 1, "meta": 1}
 
 
